@@ -25,7 +25,7 @@ ENGINES = [
 PROPS = {
     'C12': {
         'level': 'model_checking',
-        'claim': 'Exhaustive: every operation of the dlist API applied in every reachable state of 2-3 lists over a pool of 4-6 elements (closure), each transition executed on the real code and compared with an array model in both traversal directions; also under ASan with erased elements poisoned.',
+        'claim': 'Exhaustive: every operation of the dlist API applied in every reachable state of 2-3 lists over a pool of 4-6 elements (closure), each transition executed on the real code and compared with an array model in both traversal directions; also under ASan with erased elements poisoned. sort and foreach callbacks verify their private pointer, find is driven with a bare key and a (key, member) comparison function; odd configurations are built with CSTL_DLIST_INITIALIZER; plus lists of up to 4097 elements.',
         'note': E1_NOTE,
         'technique': 'explicit-state BFS to closure on the real code vs reference model (replay-based states)',
         'jobs': [{'world': 'dlist', 'src': 'worlds/dlist_world.c', 'lib': ['dlist.c'], 'flavours': RELDBG_ALWAYS}, {'world': 'big', 'src': 'worlds/big_world.c', 'lib': ['bintree.c', 'rbtree.c', 'map.c', 'dlist.c', 'slist.c', 'vector.c', 'string.c', 'array.c', 'memory.c', 'heap.c', 'common.c'], 'unity': True, 'flavours': BOTH}],
@@ -35,7 +35,7 @@ PROPS = {
     },
     'C13': {
         'level': 'model_checking',
-        'claim': 'Exhaustive: every slist operation (push_back and pop_front in every state, erase_after at every position relative to the tail) applied in every reachable state of 2-3 lists over 4-6 elements, compared with an array model.',
+        'claim': 'Exhaustive: every slist operation (push_back and pop_front in every state, erase_after at every position relative to the tail) applied in every reachable state of 2-3 lists over 4-6 elements, compared with an array model. The sort comparator and the visit function verify their private pointer; odd configurations are built with CSTL_SLIST_INITIALIZER; plus lists of up to 4097 elements.',
         'note': E1_NOTE,
         'technique': 'explicit-state BFS to closure on the real code vs reference model (replay-based states)',
         'jobs': [{'world': 'slist', 'src': 'worlds/slist_world.c', 'lib': ['slist.c'], 'flavours': RELDBG_ALWAYS}, {'world': 'big', 'src': 'worlds/big_world.c', 'lib': ['bintree.c', 'rbtree.c', 'map.c', 'dlist.c', 'slist.c', 'vector.c', 'string.c', 'array.c', 'memory.c', 'heap.c', 'common.c'], 'unity': True, 'flavours': BOTH}],
@@ -46,7 +46,7 @@ PROPS = {
     },
     'C01': {
         'level': 'model_checking',
-        'claim': 'Exhaustive within scope: closure over all insert/hinted-insert/erase/clear/swap histories on bintree and rbtree for pools of 6-11 (thorough 8-13) elements with distinct, paired, all-equal and heavy key multisets and three comparators; every state audited through find and both traversals with early stops at every visit.',
+        'claim': 'Exhaustive within scope: closure over all insert/hinted-insert/erase/clear/swap histories on bintree and rbtree for pools of 6-11 (thorough 8-13) elements with distinct, paired, all-equal and heavy key multisets and three comparators; every state audited through find and both traversals with early stops at every visit. The second tree object is of another kind (own comparator, private pointer, node offset) and receives the content by swap, then takes an insert and an erase; odd configurations are built with the static initialiser macros; every comparator / visitor / clear callback verifies its private pointer. Plus an enumerated family of large histories (100-5000 elements, five insertion and erase orders).',
         'note': E1_NOTE,
         'technique': 'explicit-state BFS to closure on the real code vs set model',
         'jobs': [{'world': 'tree', 'src': 'worlds/tree_world.c', 'lib': ['bintree.c', 'rbtree.c'], 'flavours': RELDBG_ALWAYS}, {'world': 'big', 'src': 'worlds/big_world.c', 'lib': ['bintree.c', 'rbtree.c', 'map.c', 'dlist.c', 'slist.c', 'vector.c', 'string.c', 'array.c', 'memory.c', 'heap.c', 'common.c'], 'unity': True, 'flavours': BOTH}],
@@ -57,7 +57,7 @@ PROPS = {
     },
     'C02': {
         'level': 'model_checking',
-        'claim': 'Exhaustive within scope: every red-black tree shape and colouring reachable with up to 11 (thorough 13) elements by any insert/erase order, red-black rules and the height bound evaluated in every state.',
+        'claim': 'Exhaustive within scope: every red-black tree shape and colouring reachable with up to 11 (thorough 13) elements by any insert/erase order, red-black rules and the height bound evaluated in every state. Includes swap with a tree object of another element layout followed by insert/erase through the receiving object, and trees of up to 5000 nodes from an enumerated family of insertion/erase orders.',
         'note': E1_NOTE,
         'technique': 'explicit-state BFS to closure on the real code with a structural invariant in every state',
         'jobs': [{'world': 'tree', 'src': 'worlds/tree_world.c', 'lib': ['bintree.c', 'rbtree.c'], 'flavours': RELDBG_ALWAYS}, {'world': 'big', 'src': 'worlds/big_world.c', 'lib': ['bintree.c', 'rbtree.c', 'map.c', 'dlist.c', 'slist.c', 'vector.c', 'string.c', 'array.c', 'memory.c', 'heap.c', 'common.c'], 'unity': True, 'flavours': BOTH}],
@@ -67,7 +67,7 @@ PROPS = {
     },
     'C07': {
         'level': 'model_checking',
-        'claim': 'Exhaustive within scope: every heap shape reachable by push/pop/clear/swap over pools of 7-8 (thorough 8-10) elements incl. ties and sign-only/reversed comparators; max-at-root, exact removal and level-order completeness in every state.',
+        'claim': 'Exhaustive within scope: every heap shape reachable by push/pop/clear/swap over pools of 7-8 (thorough 8-10) elements incl. ties and sign-only/reversed comparators; max-at-root, exact removal and level-order completeness in every state. The second heap object is of another kind (comparator, private pointer, node offset); swap-pair pushes and pops through the receiving object; CSTL_HEAP_INITIALIZER is compared field by field with cstl_heap_init and used on odd configurations; plus every heap size up to 2^16+3 (thorough 2^17+3) and cstl_fls against a reference.',
         'note': E1_NOTE,
         'technique': 'explicit-state BFS to closure on the real code vs multiset model',
         'jobs': [{'world': 'heap', 'src': 'worlds/heap_world.c', 'lib': ['heap.c', 'bintree.c', 'common.c'], 'flavours': RELDBG_ALWAYS},
@@ -79,7 +79,7 @@ PROPS = {
     },
     'C08': {
         'level': 'model_checking',
-        'claim': 'Exhaustive within scope: closure over insert/find/erase/erase_iterator/clear on 4-10 (thorough 5-12) key values incl. equal-comparing twin key objects, stored-pointer identity and live-allocation count after every operation.',
+        'claim': 'Exhaustive within scope: closure over insert/find/erase/erase_iterator/clear on 4-10 (thorough 5-12) key values incl. equal-comparing twin key objects, stored-pointer identity and live-allocation count after every operation. One configuration orders keys with a comparison function that looks both keys up in a second map and clears (and refills) a third map from inside the clear callback; one uses integers cast to pointers as keys (0 = NULL included) with a NULL value; plus maps of up to 5000 entries.',
         'note': E1_NOTE,
         'technique': 'explicit-state BFS to closure on the real code vs association-list model + allocation accounting',
         'jobs': [{'world': 'map', 'src': 'worlds/map_world.c', 'lib': ['map.c', 'rbtree.c', 'bintree.c'], 'flavours': RELDBG_ALWAYS}, {'world': 'big', 'src': 'worlds/big_world.c', 'lib': ['bintree.c', 'rbtree.c', 'map.c', 'dlist.c', 'slist.c', 'vector.c', 'string.c', 'array.c', 'memory.c', 'heap.c', 'common.c'], 'unity': True, 'flavours': BOTH}],
@@ -90,7 +90,7 @@ PROPS = {
     },
     'C15': {
         'level': 'model_checking',
-        'claim': 'Exhaustive within scope: clear applied in every reachable state of the six containers with a counting+poisoning callback; cleared object must equal a freshly initialised one field for field.',
+        'claim': 'Exhaustive within scope: clear applied in every reachable state of the six containers with a counting+poisoning callback; cleared object must equal a freshly initialised one field for field. The clear callback of the map also clears another map (with its own callback and private pointer) while being called. Plus clear on containers of 64 to 3000 elements, plain binary trees 64 to 3000 levels deep.',
         'note': E1_NOTE,
         'technique': 'explicit-state BFS to closure; clear transition with ASan-poisoning callback in every reachable state',
         'jobs': [{'world': 'tree', 'src': 'worlds/tree_world.c', 'lib': ['bintree.c', 'rbtree.c'], 'flavours': BOTH},
@@ -106,7 +106,7 @@ PROPS = {
     },
     'C03': {
         'level': 'model_checking',
-        'claim': 'Exhaustive within scope: closure over insert / erase (members and non-members) / find (no visitor, rejecting visitor, visitor accepting the j-th offer) / resize (every count x function, also while pending, also 0) / rehash / shrink_to_fit / swap / foreach / clear over 3-5 (thorough 4-6) elements with colliding and repeated keys and bucket counts up to 8; every find result, offer sequence, size and erase effect compared with a set model in every reachable table state (most of them mid-rehash).',
+        'claim': 'Exhaustive within scope: closure over insert / erase (members and non-members) / find (no visitor, rejecting visitor, visitor accepting the j-th offer) / resize (every count x function, also while pending, also 0) / rehash / shrink_to_fit / swap / foreach / clear over 3-5 (thorough 4-6) elements with colliding and repeated keys and bucket counts up to 8; every find result, offer sequence, size and erase effect compared with a set model in every reachable table state (most of them mid-rehash). Visit functions signal acceptance with values of both signs and verify their private pointer; the table-wide clean bit (which survives clear) is part of the state; odd configurations are built with CSTL_HASH_INITIALIZER; plus enumerated large tables (up to 16384 buckets) driven through complete rehashes.',
         'note': E1_NOTE,
         'technique': 'explicit-state BFS to closure on the real code vs set model; key = public struct (geometry, pending geometry, sweep index, relative dirty flags, chains)',
         'jobs': [{'world': 'hash', 'src': 'worlds/hash_world.c', 'lib': [], 'unity': True, 'flavours': BOTH}, {'world': 'big', 'src': 'worlds/big_world.c', 'lib': ['bintree.c', 'rbtree.c', 'map.c', 'dlist.c', 'slist.c', 'vector.c', 'string.c', 'array.c', 'memory.c', 'heap.c', 'common.c'], 'unity': True, 'flavours': BOTH}],
@@ -124,7 +124,7 @@ PROPS = {
     },
     'C19': {
         'level': 'model_checking',
-        'claim': 'Exhaustive within scope: on every transition of the C03 search the instrumented hash functions log (key, table size, function); load == size/n right after every resize request (also while pending, back to the previous geometry, repeated); single consultation with the requested geometry whenever no rehash is pending; while pending every keyed operation cleans between 1 and 3 dirty buckets (read from the public struct before/after), relocates nodes out of at most 3 buckets, and the dirty count strictly falls - by induction over the closure a rehash finishes within bucket-count keyed operations.',
+        'claim': 'Exhaustive within scope: on every transition of the C03 search the instrumented hash functions log (key, table size, function); load == size/n right after every resize request (also while pending, back to the previous geometry, repeated); single consultation with the requested geometry whenever no rehash is pending; while pending every keyed operation cleans between 1 and 3 dirty buckets (read from the public struct before/after), relocates nodes out of at most 3 buckets, and the dirty count strictly falls - by induction over the closure a rehash finishes within bucket-count keyed operations. On enumerated large tables (up to 16384 buckets) every lookup of a pending rehash must clean at most 3 buckets (at least 1 unless it completes the rehash).',
         'note': E1_NOTE + ' Calls to the built-in cstl_hash_mul cannot be logged (tables that never named a function are explored but not call-counted).',
         'technique': 'explicit-state BFS to closure on the real code with per-transition work accounting (hash-call log + dirty-bucket deltas)',
         'jobs': [{'world': 'hash', 'src': 'worlds/hash_world.c', 'lib': [], 'unity': True, 'flavours': BOTH}, {'world': 'big', 'src': 'worlds/big_world.c', 'lib': ['bintree.c', 'rbtree.c', 'map.c', 'dlist.c', 'slist.c', 'vector.c', 'string.c', 'array.c', 'memory.c', 'heap.c', 'common.c'], 'unity': True, 'flavours': BOTH}],
@@ -133,7 +133,7 @@ PROPS = {
     },
     'C09': {
         'level': 'model_checking',
-        'claim': 'Exhaustive within scope: closure over resize / reserve / shrink_to_fit / clear / sort / reverse / swap on two vectors of different element sizes (one with constructor/destructor), size arguments from small values, size+-1, cap, cap+1 and the SIZE_MAX / SIZE_MAX/es / 1 GiB boundary family; after every operation the data pointer must be the start of a live allocation of at least (capacity+1)*es bytes (128-bit arithmetic), element bytes must survive, at() must abort exactly for i >= size, unsatisfiable reserve must change nothing and unsatisfiable resize must abort, constructor/destructor calls are matched slot by slot.',
+        'claim': 'Exhaustive within scope: closure over resize / reserve / shrink_to_fit / clear / sort / reverse / swap on two vectors of different element sizes (one with constructor/destructor), size arguments from small values, size+-1, cap, cap+1 and the SIZE_MAX / SIZE_MAX/es / 1 GiB boundary family; after every operation the data pointer must be the start of a live allocation of at least (capacity+1)*es bytes (128-bit arithmetic), element bytes must survive, at() must abort exactly for i >= size, unsatisfiable reserve must change nothing and unsatisfiable resize must abort, constructor/destructor calls are matched slot by slot. The vector is observed through its public functions only; its raw bytes are part of the state. Plus vectors of 100 to 100000 elements and one of 2^31+5 one-byte elements whose destructor must meet every leaving element exactly once.',
         'note': E1_NOTE + ' "Cannot be satisfied" = (n+1)*es unrepresentable or above the 1 GiB line at which the allocation layer refuses deterministically.',
         'technique': 'explicit-state BFS to closure on the real code vs reference model + allocation-layer block accounting',
         'jobs': [{'world': 'vector', 'src': 'worlds/vector_world.c', 'lib': ['vector.c', 'array.c', 'memory.c'], 'flavours': RELDBG_ALWAYS}, {'world': 'big', 'src': 'worlds/big_world.c', 'lib': ['bintree.c', 'rbtree.c', 'map.c', 'dlist.c', 'slist.c', 'vector.c', 'string.c', 'array.c', 'memory.c', 'heap.c', 'common.c'], 'unity': True, 'flavours': BOTH}],
@@ -142,7 +142,7 @@ PROPS = {
     },
     'C10': {
         'level': 'model_checking',
-        'claim': 'Exhaustive within scope: closure over set_str / insert_ch / insert_str_n / insert / append* / erase / substr / resize / reserve / swap / clear on two string objects (narrow and wide builds) over characters {a,b,NUL} with reference length <= 4 (thorough 6), positions {0,1,size-1,size,size+1,SIZE_MAX-1,SIZE_MAX} and counts {0,1,2,size,SIZE_MAX,SIZE_MAX-1,SIZE_MAX-size,SIZE_MAX-size+1,SIZE_MAX/4,SIZE_MAX/4+1,SIZE_MAX-pos}; every state compared with a reference buffer through size/at/str, find_ch/find_str/find/compare compared with libc on the reference.',
+        'claim': 'Exhaustive within scope: closure over set_str / insert_ch / insert_str_n / insert / append* / erase / substr / resize / reserve / swap / clear on two string objects (narrow and wide builds) over characters {a,b,NUL} with reference length <= 4 (thorough 6), positions {0,1,size-1,size,size+1,SIZE_MAX-1,SIZE_MAX} and counts {0,1,2,size,SIZE_MAX,SIZE_MAX-1,SIZE_MAX-size,SIZE_MAX-size+1,SIZE_MAX/4,SIZE_MAX/4+1,SIZE_MAX-pos}; every state compared with a reference buffer through size/at/str, find_ch/find_str/find/compare compared with libc on the reference. One configuration replaces a by a character above 0x7f (0xE9 narrow, U+0161 wide).',
         'note': E1_NOTE + ' erase/substr at pos == size: both an abort and the empty result are accepted (documentation silent). Inserting a string into itself is outside the domain.',
         'technique': 'explicit-state BFS to closure on the real code vs reference string',
         'jobs': [{'world': 'string', 'src': 'worlds/string_world.c', 'lib': ['string.c', 'vector.c', 'array.c', 'memory.c'], 'flavours': RELDBG_ALWAYS},
@@ -152,7 +152,7 @@ PROPS = {
     },
     'C14': {
         'level': 'model_checking',
-        'claim': 'Exhaustive within scope: closure over alloc (0..4 elements, unrepresentable and refused counts) / set (two external buffers) / slice (into another object and in place, bounds from {0,1,2,len-1,len,len+1,nm,nm+1,nm-off,nm-off+1,SIZE_MAX-1,SIZE_MAX,SIZE_MAX-off+1}) / unslice / reset / release on three array objects; every state audited with at() at {0,len-1,len,SIZE_MAX} against base+(off+i)*sz inside the buffer, and with allocation accounting (two live blocks per referenced buffer, no double/foreign free).',
+        'claim': 'Exhaustive within scope: closure over alloc (0..4 elements, unrepresentable and refused counts) / set (two external buffers) / slice (into another object and in place, bounds from {0,1,2,len-1,len,len+1,nm,nm+1,nm-off,nm-off+1,SIZE_MAX-1,SIZE_MAX,SIZE_MAX-off+1}) / unslice / reset / release on three array objects; every state audited with at() at {0,len-1,len,SIZE_MAX} against base+(off+i)*sz inside the buffer, and with allocation accounting (at least one live block per referenced buffer, none once every reference is gone, no double/foreign free). release is driven with and without out-parameter; odd configurations are built with CSTL_ARRAY_INITIALIZER; plus 65535-70000 simultaneous views of one buffer.',
         'note': E1_NOTE + ' Open cases accepted either way: slice(0,0) of an object without buffer, and a range past the object\'s own length but inside the buffer.',
         'technique': 'explicit-state BFS to closure on the real code vs view/buffer reference model + allocation accounting',
         'jobs': [{'world': 'array', 'src': 'worlds/array_world.c', 'lib': ['array.c', 'memory.c'], 'flavours': RELDBG_ALWAYS}, {'world': 'big', 'src': 'worlds/big_world.c', 'lib': ['bintree.c', 'rbtree.c', 'map.c', 'dlist.c', 'slist.c', 'vector.c', 'string.c', 'array.c', 'memory.c', 'heap.c', 'common.c'], 'unity': True, 'flavours': BOTH}],
@@ -161,7 +161,7 @@ PROPS = {
     },
     'C05': {
         'level': 'model_checking',
-        'claim': 'Exhaustive within scope: closure over alloc (with clear callback, and of size 0) / share / swap / reset / weak_from / lock / weak_reset / weak_swap on 3 (thorough 4) shared and 2 weak pointer objects, and alloc / release / swap / reset on 2 unique pointer objects; for every single operation the sequence of destruction events (clear callback, free of the managed block, free of the bookkeeping block) observed through the callback and the allocation layer must equal the reference model\'s prediction for that operation - which pins never-earlier and never-later; get(), unique() and the number of live blocks are compared in every state.',
+        'claim': 'Exhaustive within scope: closure over alloc (with clear callback, and of size 0) / share / swap / reset / weak_from / lock / weak_reset / weak_swap on 3 (thorough 4) shared and 2 weak pointer objects, and alloc / release / swap / reset on 2 unique pointer objects; for every single operation the sequence of destruction events (clear callback, free of the managed block, free of the bookkeeping block) observed through the callback and the allocation layer must equal the reference model\'s prediction for that operation - which pins never-earlier and never-later; get(), unique() and the number of live blocks are compared in every state. One configuration uses a clear callback that resets every weak pointer referring to the allocation being cleared; odd configurations are built with the *_PTR_INITIALIZER macros; plus 65535, 65536, 65537 and 70000 simultaneous owners / weak references of one allocation, released in two orders.',
         'note': E1_NOTE + ' lock() resets its target first (as documented by the code), so locking into the last owner of the same allocation destroys it and yields an empty pointer.',
         'technique': 'explicit-state BFS to closure on the real code vs reference-count model with per-operation destruction-event oracle',
         'jobs': [{'world': 'ptr', 'src': 'worlds/ptr_world.c', 'lib': ['memory.c'], 'flavours': RELDBG_ALWAYS}, {'world': 'big', 'src': 'worlds/big_world.c', 'lib': ['bintree.c', 'rbtree.c', 'map.c', 'dlist.c', 'slist.c', 'vector.c', 'string.c', 'array.c', 'memory.c', 'heap.c', 'common.c'], 'unity': True, 'flavours': BOTH}],
@@ -183,7 +183,7 @@ PROPS = {
     'C16': {
         'level': 'fault_enumeration',
         'engine': 'faultx',
-        'claim': 'Exhaustive fault enumeration: for each of seven operation scripts (map, vector with constructor/destructor, string, wstring, hash incl. failed resize followed by later successful ones, unique/shared/weak pointers, array incl. re-targeting a sliced object) every single allocation call failing, every suffix of allocation calls failing, every pair and every triple is executed (call ordinals counted within each execution); after every step the container is compared with a reference model and must either show the normal result or - only when a fault was injected in that step - the documented failure with the previous content intact; the script then continues, everything is cleared and the allocation layer audits leaks, double frees and foreign frees; all under AddressSanitizer.',
+        'claim': 'Exhaustive fault enumeration: for each of nine operation scripts (map, vector with constructor/destructor, string, wstring, hash incl. failed resize followed by later successful ones, unique/shared/weak pointers, array incl. re-targeting a sliced object, a vector of 300 elements and a string of 186 characters cut down to a fraction and regrown) every single allocation call failing, every suffix of allocation calls failing, every pair and every triple is executed (call ordinals counted within each execution); after every step the container is compared with a reference model and must either show the normal result or - only when a fault was injected in that step - the documented failure with the previous content intact; the script then continues, everything is cleared and the allocation layer audits leaks, double frees and foreign frees; all under AddressSanitizer.',
         'note': 'Trusted: the scripts and their reference models; interposition of malloc/calloc/realloc with ld --wrap (every allocation the library makes goes through these). Fault sets of size <= 3 plus all suffixes; larger fault sets are not enumerated.',
         'technique': 'exhaustive enumeration of allocation-fault sets (deviation-bounded: 0,1,2,3 faults + all suffixes) over scripted histories on the real code, reference model per step',
         'jobs': [{'world': 'faultx', 'src': 'worlds/fault_world.c', 'lib': ['map.c', 'rbtree.c', 'bintree.c', 'vector.c', 'string.c', 'memory.c', 'array.c', 'common.c'], 'unity': True, 'flavours': RELDBG_ALWAYS}],
@@ -193,7 +193,7 @@ PROPS = {
     'C11': {
         'level': 'exploration',
         'engine': 'inputx',
-        'claim': 'Complete enumeration of a bounded input space: every array of length 0..7 (thorough 0..9) over a 4-letter key alphabet, each element carrying an identity tag, for element sizes {1,2,4,8} (fast paths) and {3,12,16,24} (memcpy path), selectors QUICK, QUICK_M, HEAP and the out-of-range values -1, 4, 2897234, through cstl_raw_array_sort on an exactly sized heap block (AddressSanitizer red zones on both sides and around the scratch element) and through __cstl_vector_sort with capacity == size and capacity > size; for the randomised quicksort every value every rand() call can return is enumerated depth-first for lengths <= 5 (thorough 6); linear find on every array, binary search on every sorted array for 9 probes (present, absent below/between/above), reverse through both entry points; thorough adds 1000- and 4097-element sorted / reversed / constant / two-valued / organ-pipe / sawtooth inputs.',
+        'claim': 'Complete enumeration of a bounded input space: every array of length 0..7 (thorough 0..9) over a 4-letter key alphabet, each element carrying an identity tag, for element sizes {1,2,4,8} (fast paths) and {3,12,16,24} (memcpy path), selectors QUICK, QUICK_M, HEAP and the out-of-range values -1, 4, 2897234, through cstl_raw_array_sort on an exactly sized heap block (AddressSanitizer red zones on both sides and around the scratch element) and through __cstl_vector_sort with capacity == size and capacity > size; for the randomised quicksort every value every rand() call can return is enumerated depth-first for lengths <= 5 (thorough 6); linear find on every array, binary search on every sorted array for 9 probes (present, absent below/between/above), reverse through both entry points; the raw-array sorts also with a swap callback that ignores the (poisoned) scratch element and with a NULL scratch pointer while the allocator refuses every request; thorough adds 1000- and 4097-element sorted / reversed / constant / two-valued / organ-pipe / sawtooth inputs.',
         'note': 'Exhaustive within the stated bound, not a state-space search. Element counts above INT_MAX (the int indices of reverse/search) are not reachable by enumeration and are not claimed. A comparison-count watchdog turns non-termination into a violation.',
         'technique': 'exhaustive enumeration of all inputs up to a length bound x all algorithm selectors x all environment answers (rand), oracle = sorted permutation of the same tagged elements + ASan',
         'jobs': [{'world': 'sortx', 'src': 'worlds/sort_world.c', 'lib': ['array.c', 'vector.c', 'memory.c'], 'flavours': RELDBG_ALWAYS}],
